@@ -543,18 +543,53 @@ func (s *Slice) visitCall(c *ssa.Call, depth int) {
 			return
 		}
 	}
-	for _, a := range cc.Args {
-		s.visit(a, depth)
+	fn := cc.StaticCallee()
+	into := fn != nil && s.calls && len(fn.Blocks) > 0 && fn.Pkg != nil && s.w.SSA[fn.Pkg.Pkg.Path()] != nil
+	if into && depth >= s.maxDepth {
+		s.Cut = true
+		into = false
 	}
-	if fn := cc.StaticCallee(); fn != nil && s.calls && len(fn.Blocks) > 0 && fn.Pkg != nil && s.w.SSA[fn.Pkg.Pkg.Path()] != nil {
-		if depth >= s.maxDepth {
-			s.Cut = true
-			return
+	if !into {
+		for _, a := range cc.Args {
+			s.visit(a, depth)
 		}
-		for _, r := range returnsOf(fn) {
-			for _, res := range r.Results {
-				s.visitIn(res, depth+1)
+		return
+	}
+	// Follow the callee's results in a child slice and map the parameters it
+	// reaches back to this call's arguments (one level of context sensitivity:
+	// an argument the callee ignores is not a dependency).
+	sub := &Slice{w: s.w, Consts: s.Consts, Calls: s.Calls, Globals: s.Globals, Fields: s.Fields,
+		Params: map[*ssa.Parameter]bool{}, Values: map[ssa.Value]bool{}, maxDepth: s.maxDepth, calls: true, callers: false,
+		rootOnly: s.rootOnly, stopG: s.stopG, stopF: s.stopF, spec: s.spec}
+	for _, r := range returnsOf(fn) {
+		for _, res := range retResults(r) {
+			sub.visit(res, depth+1)
+		}
+		// which return executes is decided by the conditions dominating it
+		for _, f := range edgeFacts(r.Block()) {
+			sub.visit(f.V, depth+1)
+		}
+	}
+	s.Dynamic = append(s.Dynamic, sub.Dynamic...)
+	if sub.Cut {
+		s.Cut = true
+	}
+	for v := range sub.Values {
+		if _, isParam := v.(*ssa.Parameter); !isParam {
+			s.Values[v] = true
+		}
+	}
+	for p := range sub.Params {
+		idx := -1
+		for i, fp := range fn.Params {
+			if fp == p {
+				idx = i
 			}
+		}
+		if idx >= 0 && idx < len(cc.Args) {
+			s.visit(cc.Args[idx], depth)
+		} else {
+			s.Params[p] = true
 		}
 	}
 }
